@@ -62,8 +62,7 @@ SKIPPED = [
     "property restricts spectral centralities to connected graphs); eigenvector centralities also skipped "
     "when the spectral gap lambda_1 - lambda_2 < 1e-2 (ARPACK accuracy ~ tol/gap)",
     "msf_synchronizability of an edgeless graph (0/0)",
-    "weighted_local_clustering entries of nodes without links (0/0) and non-symmetric weights "
-    "(docstring TODO)",
+    "weighted_local_clustering entries of nodes whose denominator vanishes (0/0)",
     "bildegree(key) (bilateral strength: formula undocumented)",
     "link-weighted variants on edgeless graphs (set_link_attribute cannot create the attribute; igraph raises)",
     "n.s.i. measures with a link-attribute key, corrected (typical_weight) n.s.i. motif clustering "
@@ -494,12 +493,18 @@ def check_weighted(c, net, A, W, directed):
                 return x / x.sum()
             c.cmp("pagerank/link-weighted", pr, S.pagerank(A, W=W), tol="linalg",
                   nontrivial=len(set(np.round(S.pagerank(A, W=W), 9))) > 1)
-    if not directed:
-        from pyunicorn.core.network import Network
-        Wm = [[W[i][j] if A[i][j] else 0.0 for j in range(n)] for i in range(n)]
-        if any(any(r) for r in A):
+    from pyunicorn.core.network import Network
+    Wm = [[W[i][j] if A[i][j] else 0.0 for j in range(n)] for i in range(n)]
+    if any(any(r) for r in A):
+        if not directed:
             c.cmp("weighted_local_clustering/holme", lambda: Network.weighted_local_clustering(Wm),
                   S.weighted_local_clustering_holme(Wm))
+        # "Entry [i,j] is the link weight from i to j": the [Holme2007] quotient evaluated literally on a weight matrix
+        # that is not symmetric (a directed graph, or an undirected support whose links weigh differently in the two
+        # directions): sum_jk w_ij w_jk w_ki / (max(w) sum_jk w_ij w_ki)
+        Wa = [[Wm[i][j] * (1.0 + 0.5 * ((3 * i + 5 * j) % 4)) for j in range(n)] for i in range(n)]
+        c.cmp("weighted_local_clustering/holme-asymmetric-weights", lambda: Network.weighted_local_clustering(Wa),
+              S.weighted_local_clustering_holme(Wa))
 
 
 def W_min(W, A):
